@@ -659,7 +659,8 @@ class Network(BaseModel):  # pylint: disable=too-many-public-methods
 
     def gen_routes(self):
         """Generates the routes for source-based routing."""
-        self.routing.num_route_bits = 0
+        # `route_t` is at least one bit wide, also when no endpoint has anybody to send to
+        self.routing.num_route_bits = 1
         for ni_src in self.graph.get_ni_nodes():
             routes = []
             for ni_dst in self.graph.get_ni_nodes():
